@@ -25,6 +25,8 @@ func init() {
 			{ID: "C12.4", Desc: "delta-seconds saturation", Run: func(c *Ctx) { ruleSaturation(c, "C12.4") }, MinSites: 2},
 			{ID: "C12.5", Desc: "empty elements skipped, optional whitespace trimmed", Run: ruleC12_5, MinSites: 2},
 			{ID: "C12.6", Desc: "one tokenizer for request and response directives", Run: ruleC12_6, MinSites: 1},
+			{ID: "C12.9", Desc: "a field of a 304 that is split over several lines is merged with all of its lines", Run: func(c *Ctx) { ruleMergeFilter(c, "C12.9") }, MinSites: 1},
+			{ID: "C12.10", Desc: "an accessor that reports a directive as present hands out its argument in either spelling (token or quoted-string)", Run: ruleC12_10, MinSites: 1},
 			{ID: "C12.8", Desc: "saturated delta-seconds stay saturated in later sums", Run: func(c *Ctx) { ruleDurationSums(c, "C12.8") }, MinSites: 2},
 			{ID: "C12.7", Desc: "in the list splitter an escaped character is consumed before quotes and commas are interpreted", Run: ruleC12_7, MinSites: 1},
 		},
@@ -390,6 +392,59 @@ func ruleC12_5(c *Ctx) {
 			}
 		})
 	}
+	// an empty element is skipped, it does not end the list: the iteration is left early (a return from inside the scan
+	// loop) only after a yield that returned false
+	var yieldCalls []ssa.Value
+	for _, g := range scope {
+		instrsOf(g, func(in ssa.Instruction) {
+			if call := callOf(in); call != nil && !call.IsInvoke() && call.StaticCallee() == nil && isYield(call.Value) {
+				if v, ok := in.(ssa.Value); ok {
+					yieldCalls = append(yieldCalls, v)
+				}
+			}
+		})
+	}
+	earlyExit := ""
+	for _, g := range scope {
+		if g != split {
+			continue
+		}
+		for _, b := range g.Blocks {
+			if _, isRet := b.Instrs[len(b.Instrs)-1].(*ssa.Return); !isRet || !leavesLoopFromBody(b) {
+				continue
+			}
+			// every way into this return says "a yield returned false" (directly or via a local helper's result)
+			stopped := false
+			for _, dc := range dominatingConds(b) {
+				for _, lf := range condLeaves(dc.cond, dc.onTrue) {
+					if lf.val {
+						continue
+					}
+					for _, yc := range yieldCalls {
+						if lf.v == yc || c.An.canon(lf.v) == yc {
+							stopped = true
+						}
+					}
+					// result of a local closure that wraps the yield
+					if call, ok := lf.v.(*ssa.Call); ok {
+						for _, cal := range c.P.Callees(call) {
+							if lexicallyInside(cal, split) {
+								stopped = true
+							}
+						}
+					}
+				}
+			}
+			if !stopped {
+				earlyExit = c.P.InstrPos(b.Instrs[len(b.Instrs)-1])
+			}
+		}
+	}
+	if earlyExit != "" {
+		c.Fail("C12.5", "splitter-runs-to-the-end", "the list splitter stops early only when the consumer stops it", earlyExit+": the scan loop is left although no yield returned false; e.g. an empty element (`max-stale=60,, only-if-cached`) ends the list and every directive after it is lost")
+	} else if n > 0 {
+		c.Pass("C12.5", "splitter-runs-to-the-end", "the list splitter stops early only when the consumer stops it", c.P.ShortName(split))
+	}
 	if n == 0 {
 		c.Undecided("C12.5", "splitter", desc, "no yield call in "+c.P.ShortName(split))
 	} else if bad != "" {
@@ -565,5 +620,55 @@ func ruleC12_7(c *Ctx) {
 		c.Fail("C12.7", "splitter-escape", desc, bad+"; an escaped quote such as ext=\"a\\\"\" ends the quoted-string early and the directives after it are lost or merged")
 	} else {
 		c.Pass("C12.7", "splitter-escape", desc, fmt.Sprintf("%s: %d comparisons guarded by the escape state", c.P.ShortName(split), n))
+	}
+}
+
+// ruleC12_10: `no-cache=X-Secret` and `no-cache="X-Secret"` mean the same. A tuple accessor (argument, present) that
+// reports present=true must hand out the argument it found: its first result depends on the map lookup on every such
+// return. Returning a constant (empty) argument with present=true turns one spelling into the unqualified directive.
+func ruleC12_10(c *Ctx) {
+	desc := "wherever a tuple accessor returns present=true, the argument returned depends on the directive's stored value"
+	n := 0
+	var fns []*ssa.Function
+	for fn, di := range c.A.DirAcc {
+		if di.Tuple {
+			fns = append(fns, fn)
+		}
+	}
+	sort.Slice(fns, func(i, j int) bool { return FuncName(fns[i]) < FuncName(fns[j]) })
+	for _, fn := range fns {
+		var lookups []ssa.Value
+		instrsOf(fn, func(in ssa.Instruction) {
+			if lk, ok := in.(*ssa.Lookup); ok {
+				lookups = append(lookups, lk)
+			}
+		})
+		instrsOf(fn, func(in ssa.Instruction) {
+			r, ok := in.(*ssa.Return)
+			if !ok || len(r.Results) != 2 {
+				return
+			}
+			okv := c.An.RetVal(r, 1)
+			if b, isC := constBool(okv); !isC || !b {
+				return // present is false or computed (a decoder's validity flag)
+			}
+			n++
+			arg := c.An.RetVal(r, 0)
+			dep := false
+			for _, lk := range lookups {
+				if c.An.dependsOnValue(arg, lk) {
+					dep = true
+				}
+			}
+			key := "present-carries-argument fn=" + c.P.ShortName(fn)
+			if dep {
+				c.Pass("C12.10", key, desc, c.P.InstrPos(r))
+			} else {
+				c.Fail("C12.10", key, desc, c.P.InstrPos(r)+": returns `"+arg.String()+"` with present=true; e.g. the token form `no-cache=X-Secret` is then handled as unqualified no-cache (validation on every request) while the quoted form is not")
+			}
+		})
+	}
+	if n == 0 {
+		c.Pass("C12.10", "present-carries-argument", desc, fmt.Sprintf("%d tuple accessors, none returns a literal present=true", len(fns)))
 	}
 }
